@@ -65,6 +65,7 @@ func genScript(r *lib.Rng, tier string) *Case {
 		maxOps = 30
 	}
 	nOps := r.Range(5, maxOps)
+	c.OptSpare = []int{0, 1, 1, 2, 3}[r.Intn(5)]
 	// root: a manager with chosen offset / len / cap (len <= 5, cap <= 8)
 	l := r.Range(0, 5)
 	root := SOp{Op: "raw", New: 0, Inf: 100, Off: r.Intn(3), Hs: pickSome(r, nH, l, l), Spare: r.Intn(9 - l)}
@@ -75,6 +76,7 @@ func genScript(r *lib.Rng, tier string) *Case {
 	c.Ops = append(c.Ops, root)
 	units := []int{0}
 	next := 1
+	pool := append([][]int{}, root.Opts...) // option handler lists in use
 	// units whose manager holds a slice of the caller (raw units and their aliases): unit -> len
 	rawLen := map[int]int{}
 	var rawUnits []int
@@ -91,6 +93,17 @@ func genScript(r *lib.Rng, tier string) *Case {
 			}
 			op := SOp{Op: "append", Parent: &p, New: next, Inf: 100 + next,
 				Opts: genOptLists(r, nH, r.Intn(3)), Via: []string{"node", "node", "direct", "graph"}[r.Intn(4)]}
+			if r.Chance(1, 5) {
+				// on a context without manager (a node of a graph called without graph-wide handlers, a
+				// top-level call): InitCallbacks keeps the list it is handed
+				op.Parent = nil
+				op.Opts = genOptLists(r, nH, r.Range(1, 3))
+			}
+			if len(op.Opts) > 0 && len(pool) > 0 && r.Chance(1, 2) {
+				// the option another unit has already been given (one call option serves several nodes)
+				op.Opts[0] = pool[r.Intn(len(pool))]
+			}
+			pool = append(pool, op.Opts...)
 			c.Ops = append(c.Ops, op)
 			units = append(units, next)
 			next++
@@ -207,9 +220,22 @@ func runScript(c *Case) lib.Result {
 	}
 	info := func(i int) *callbacks.RunInfo { return &callbacks.RunInfo{Name: fmt.Sprintf("u%d", i)} }
 
+	optPool := map[string]callerSlice{}
 	class, detail := watchdog(20*time.Second, func() {
 		installGlobals(c, hs)
 		defer callbacks.InitCallbackHandlers(nil)
+		// the handler slice behind WithCallbacks(list...): one slice per distinct list, with spare
+		// capacity (a caller that built it with append and passes the same option to several nodes)
+		optSlice := func(ids []int) []callbacks.Handler {
+			k := fmt.Sprint(ids)
+			if cs, ok := optPool[k]; ok {
+				return cs.sl
+			}
+			sl := make([]callbacks.Handler, len(ids), len(ids)+c.OptSpare)
+			copy(sl, toH(ids))
+			optPool[k] = callerSlice{sl, append([]int(nil), ids...)}
+			return sl
+		}
 		for opIdx, op := range c.Ops {
 			pay := fmt.Sprintf("p%d|", opIdx+1) // the payload of this operation (On): identifies the call
 			switch op.Op {
@@ -253,7 +279,7 @@ func runScript(c *Case) lib.Result {
 				case "graph":
 					var opts []compose.Option
 					for _, o := range op.Opts {
-						opts = append(opts, compose.WithCallbacks(toH(o)...))
+						opts = append(opts, compose.WithCallbacks(optSlice(o)...))
 					}
 					// an option designated elsewhere must be ignored by initGraphCallbacks
 					opts = append(opts, compose.WithCallbacks(toH([]int{1})...).DesignateNode("elsewhere"))
@@ -261,8 +287,24 @@ func runScript(c *Case) lib.Result {
 				default:
 					key := fmt.Sprintf("k%d", op.New)
 					var opts []compose.Option
-					for _, o := range op.Opts {
-						opts = append(opts, compose.WithCallbacks(toH(o)...).DesignateNode(key))
+					for i, o := range op.Opts {
+						// the node's key stands alone, among the keys of other nodes, behind / before a path
+						// into a sub graph: the option is for this node in every case
+						wc := compose.WithCallbacks(optSlice(o)...)
+						deeper := compose.NewNodePath("elsewhere", "deeper")
+						switch (opIdx + i) % 5 {
+						case 0:
+							wc = wc.DesignateNode(key)
+						case 1:
+							wc = wc.DesignateNodeWithPath(deeper, compose.NewNodePath(key))
+						case 2:
+							wc = wc.DesignateNode("elsewhere", key, "other")
+						case 3:
+							wc = wc.DesignateNodeWithPath(compose.NewNodePath(key), deeper)
+						default:
+							wc = wc.DesignateNodeWithPath(compose.NewNodePath(key, "deeper"), compose.NewNodePath("elsewhere"), compose.NewNodePath(key))
+						}
+						opts = append(opts, wc)
 					}
 					// undesignated options and options for other nodes must be ignored by initNodeCallbacks
 					opts = append(opts, compose.WithCallbacks(toH([]int{1})...),
@@ -466,6 +508,12 @@ func runScript(c *Case) lib.Result {
 				res.Oracle = strings.TrimPrefix(res.Oracle+" | ", " | ") + fmt.Sprintf("unit %d: element %d of the slice the caller passed was overwritten: handler %d, want %d", u, i, got, spec[u][i])
 				res.Sig = "script-list"
 			}
+		}
+	}
+	for _, cs := range optPool {
+		if what := cs.changed(); what != "" {
+			res.Oracle = strings.TrimPrefix(res.Oracle+" | ", " | ") + fmt.Sprintf("the handler slice the caller passed to WithCallbacks(%v...) %s", cs.ids, what)
+			res.Sig = "script-list"
 		}
 	}
 	res.Nontrivial = (maxSib >= 2 && spare) || nAlias > 0
